@@ -25,6 +25,8 @@ import (
 
 	"lunar/engine/actions"
 	"lunar/engine/routing"
+	"lunar/toolkit-core/clock"
+	context_manager "lunar/toolkit-core/context-manager"
 	"lunar/toolkit-core/verifhook"
 
 	"github.com/negasus/haproxy-spoe-go/message"
@@ -100,15 +102,28 @@ type fakeHAProxy struct {
 	round     func() int
 	adminHits int
 	failed    int
+	lastHit   time.Time
+	managed   map[string]bool // endpoint expressions HAProxy currently hands to the engine
+	everSeen  map[string]bool // every endpoint expression ever registered since the last reset
 }
 
 func (f *fakeHAProxy) admin(w http.ResponseWriter, r *http.Request) {
-	io.Copy(io.Discard, r.Body)
+	body, _ := io.ReadAll(r.Body)
 	f.mu.Lock()
 	f.adminHits++
+	f.lastHit = time.Now()
 	fail := f.failRound != 0 && r.Method == http.MethodPut && f.round() == f.failRound
 	if fail {
 		f.failed++
+	} else if r.URL.Path == "/managed_endpoint" {
+		ep := string(body)
+		switch r.Method {
+		case http.MethodPut:
+			f.managed[ep] = true
+			f.everSeen[ep] = true
+		case http.MethodDelete:
+			delete(f.managed, ep)
+		}
 	}
 	f.mu.Unlock()
 	if fail {
@@ -116,6 +131,71 @@ func (f *fakeHAProxy) admin(w http.ResponseWriter, r *http.Request) {
 		return
 	}
 	w.WriteHeader(200)
+}
+
+// resetManaged forgets what was registered (a new case starts from the endpoints its `init` registers).
+func (f *fakeHAProxy) resetManaged() {
+	f.mu.Lock()
+	f.managed, f.everSeen = map[string]bool{}, map[string]bool{}
+	f.mu.Unlock()
+}
+
+// managedFiles maps the managed endpoint expressions (METHOD:::<stem>\.test(/.*)? , …\.quota…) back to the
+// configuration files they come from; a file only part of whose endpoints is managed is marked.
+func (f *fakeHAProxy) managedFiles() string {
+	file := func(ep string) string {
+		i := strings.Index(ep, ":::")
+		if i < 0 {
+			return "?" + ep
+		}
+		host := ep[i+3:]
+		switch {
+		case strings.Contains(host, `\.test`):
+			return "f/" + host[:strings.Index(host, `\.test`)] + ".yaml"
+		case strings.Contains(host, `\.quota`):
+			return "q/" + host[:strings.Index(host, `\.quota`)] + ".yaml"
+		}
+		return "?" + ep
+	}
+	f.mu.Lock()
+	defer f.mu.Unlock()
+	total, on := map[string]int{}, map[string]int{}
+	for ep := range f.everSeen {
+		total[file(ep)]++
+	}
+	for ep := range f.managed {
+		on[file(ep)]++
+	}
+	var out []string
+	for fl, n := range on {
+		if n < total[fl] {
+			fl += "!partial"
+		}
+		out = append(out, fl)
+	}
+	sort.Strings(out)
+	if len(out) == 0 {
+		return "%e"
+	}
+	return strings.Join(out, ",")
+}
+
+// quiesce waits until the admin port has been silent for a while (the delayed un-manage goroutines
+// woken by a clock advance send their DELETEs asynchronously).
+func (f *fakeHAProxy) quiesce() {
+	start := time.Now()
+	for {
+		time.Sleep(2 * time.Millisecond)
+		f.mu.Lock()
+		last := f.lastHit
+		f.mu.Unlock()
+		if time.Since(start) > 25*time.Millisecond && time.Since(last) > 25*time.Millisecond {
+			return
+		}
+		if time.Since(start) > 5*time.Second {
+			return
+		}
+	}
 }
 
 func (f *fakeHAProxy) health(w http.ResponseWriter, r *http.Request) {
@@ -181,6 +261,7 @@ type world struct {
 	srv     *httptest.Server
 	rd      *routing.HandlingDataManager
 	handler routing.MessageHandler
+	clock   *clock.MockClock
 	seq     int
 
 	transportErrors int // admin requests that died in transport since the child started
@@ -213,7 +294,7 @@ func getWorld() *world {
 	w.ctl = sched.New()
 	w.hook = &hookCtl{inner: w.ctl}
 	verifhook.Install(w.hook)
-	w.ha = &fakeHAProxy{round: func() int { return w.rounds() }}
+	w.ha = &fakeHAProxy{round: func() int { return w.rounds() }, managed: map[string]bool{}, everSeen: map[string]bool{}}
 	serve(os.Getenv("HAPROXY_MANAGE_ENDPOINTS_PORT"), w.ha.admin)
 	serve(os.Getenv("LUNAR_HEALTHCHECK_PORT"), w.ha.health)
 	w.rd = routing.NewHandlingDataManager(5*time.Second, nil)
@@ -228,6 +309,9 @@ func getWorld() *world {
 	w.srv.Config.ErrorLog = log.New(io.Discard, "", 0) // "superfluous WriteHeader" of the double handleError
 	w.srv.Start()
 	w.handler = routing.Handler(w.rd)
+	// from here on the engine's clock is the mock clock: the delayed un-manage of HAProxy endpoints
+	// (clock.Sleep(staleVersionTTL) = 30 s) fires when the harness advances it (op `tick`)
+	w.clock = context_manager.Get().SetMockClock().GetClock().(*clock.MockClock)
 	theWorld = w
 	return w
 }
